@@ -278,6 +278,18 @@ func huge(r *ev.Run, n int) int {
 			}
 		}
 	}
+	// saw-tooth at full scale: take half (+1) out, put n more in (the container grows again while its
+	// contents no longer start at the front of its buffer), then drain
+	for k := n/2 + 1; k > 0; k-- {
+		if m := pop(); m != "" {
+			return fail("stack (half drain): %s", m)
+		}
+	}
+	for k := 0; k < n; k++ {
+		if m := push(); m != "" {
+			return fail("stack (refill after a half drain): %s", m)
+		}
+	}
 	for size > 0 {
 		if m := pop(); m != "" {
 			return fail("stack (drain): %s", m)
@@ -317,6 +329,16 @@ func huge(r *ev.Run, n int) int {
 					return fail("queue (wiggle at a power of two): %s", m)
 				}
 			}
+		}
+	}
+	for k := n/2 + 1; k > 0; k-- {
+		if m := deq(); m != "" {
+			return fail("queue (half drain): %s", m)
+		}
+	}
+	for k := 0; k < n; k++ {
+		if m := enq(); m != "" {
+			return fail("queue (refill after a half drain): %s", m)
 		}
 	}
 	for next > head {
@@ -401,6 +423,6 @@ func main() {
 	r.Set("traces_validated_against_impl", rq.Transitions+rs.Transitions)
 	r.Set("max_depth", max(rq.MaxDepth, rs.MaxDepth))
 	r.Set("size_bound", n)
-	r.Set("rule", "explicit-state BFS to fixpoint from the zero value, values {0,2} (the element type's zero value is data like any other), size bound as given; the fingerprint includes the stack's hidden capacity region; after every transition the container is drained and compared element by element with a slice model, then reused; plus fill/drain saw-tooth families up to thousands of elements (capacity-dependent paths), a one-pass fill of one stack and one queue to 2^21+77 (thorough 2^24+77) values with Len/Peek checked after every call and a complete drain, PLUS deterministic families beyond the exhaustive bound (large sizes, every single/double removal from trees built in 7 orders, long one-instance churn histories): see the *_family_* counters")
+	r.Set("rule", "explicit-state BFS to fixpoint from the zero value, values {0,2} (the element type's zero value is data like any other), size bound as given; the fingerprint includes the stack's hidden capacity region; after every transition the container is drained and compared element by element with a slice model, then reused; plus fill/drain saw-tooth families up to thousands of elements (capacity-dependent paths), a one-pass fill of one stack and one queue to 2^21+77 (thorough 2^24+77) values with Len/Peek checked after every call, a half drain, a refill by as many values again and a complete drain, PLUS deterministic families beyond the exhaustive bound (large sizes, every single/double removal from trees built in 7 orders, long one-instance churn histories): see the *_family_* counters")
 	r.Finish()
 }
